@@ -18,7 +18,8 @@ def configs(P, rng):
     return cs
 
 def known_sig(desc, P, case, cfg, o):
-    if "TupleIdTransformer" in cfg.get("skipped", []) and o is not None and o.kind in ("signal", "assert"):
+    if "TupleIdTransformer" in cfg.get("skipped", []) and o is not None and (
+            o.kind in ("signal", "assert") or "Segmentation violation signal" in (o.stderr or "") + (o.stdout or "")):
         return "skip-TupleId-crashes-after-HoistAggregate"
     return None
 
